@@ -26,7 +26,7 @@ RULE = ("scenario = (repository kind, operation kind, hand-written packages befo
         "must equal the observation before the operation (old) or after the uninjected operation (new). One evaluation = one "
         "fault point judged. A case is NON-TRIVIAL when the tree at judgement time equals neither the pre-operation tree nor "
         "the completed tree (a genuinely intermediate state); distinct = (scenario, kind, k). Quick: 6 fixed vdb scenarios "
-        "(2 install, 2 replace, 2 uninstall) + 4 binpkg-repository scenarios (install, replace same version, 2 uninstall; "
+        "(2 install, 2 replace, 2 uninstall) + 6 binpkg-repository scenarios (install, replace same version / new version / new revision, 2 uninstall; "
         "tarball + xpak + Packages cache written by the real code); thorough: + 36 generated vdb scenarios (EAPI 5-8, slots, "
         "CONTENTS sizes, NEEDED files, missing optional metadata, siblings).")
 ASSUMPTIONS = [
